@@ -386,4 +386,185 @@ def r17_9(ctx):
     ctx.ok(where, "the split that feeds the range slice keeps a trailing blank line when a range is in force", f.fq)
 
 
-RULES = [r17_1, r17_2, r17_3, r17_4, r17_5, r17_7, r17_8, r17_9]
+def _blank_keeping(ab, fnode):
+    """'yes' / 'no' / text of an allow_blank argument that is neither"""
+    from ..astutil import inline as _inl, single_defs as _sdf
+    if ab is None:
+        return "no"
+    if isinstance(ab, ast.Constant):
+        return "yes" if ab.value is True else "no" if ab.value in (False, None, 0) else norm(ab)
+    v = norm(_inl(ab, _sdf(fnode)))
+    return "yes" if "line_range" in v else v
+
+
+def _rebuild_effect(ctx, name):
+    """what a Text method does to a trailing blank line: 'keep', 'drop' (re-splits with Text.split's default and joins), or None"""
+    try:
+        callee = ctx.repo.fn(f"text:Text.{name}")
+    except Exception:
+        return None, None
+    inner = []
+    for c in walk_local(callee.node):
+        if isinstance(c, ast.Call) and isinstance(c.func, ast.Attribute) and c.func.attr == "split":
+            recv = c.func.value
+            if (isinstance(recv, ast.Attribute) and recv.attr == "plain") or (isinstance(recv, ast.Name) and recv.id == "plain"):
+                continue
+            sep = c.args[0] if c.args else kwarg(c, "separator")
+            if sep is not None and not (isinstance(sep, ast.Constant) and sep.value == "\n"):
+                continue
+            inner.append(c)
+    joins = [c for c in walk_local(callee.node) if isinstance(c, ast.Call) and isinstance(c.func, ast.Attribute) and c.func.attr == "join"]
+    if not inner and not joins:
+        return "keep", callee
+    if len(inner) != 1 or not joins:
+        return None, callee
+    k = _blank_keeping(kwarg(inner[0], "allow_blank") if len(inner[0].args) < 3 else inner[0].args[2], callee.node)
+    return ("keep" if k == "yes" else "drop" if k == "no" else None), callee
+
+
+def r17_10(ctx):
+    ctx.rule("R17.10", "the lines selected by the range reach the numbering loop one for one. Whatever joins and re-splits them after the range slice in Syntax.__rich_console__ (the indent-guide pass) is decided by counting trailing lines: a join of n lines has n; appending a new line adds an empty last one; a Text method that rebuilds its text with Text.split's default and a join (with_indent_guides) and a final split without allow_blank each drop an empty last line. The count must come out at n when a range is in force, never above n, and an empty selection must not be re-split at all ('' splits into one line): otherwise line_range=(1, 4) of 'a\\n\\nb\\n\\nc' with indent guides shows three lines and a range beyond the code one phantom number")
+    from ..astutil import single_defs as _sdf
+    f = ctx.repo.fn("syntax:Syntax.__rich_console__")
+    m = f.module
+    slices = [x for x in walk_local(f.node) if isinstance(x, ast.Assign) and isinstance(x.value, ast.Subscript) and isinstance(x.value.slice, ast.Slice) and x.value.slice.upper is not None and "end" in norm(x.value.slice.upper)]
+    if len(slices) != 1:
+        raise AnalysisError("Syntax.__rich_console__: the slice of the lines by the range was not found")
+    var = norm(slices[0].targets[0])
+    g = cfgmod.build(f.node)
+    after = g.reach(set(g.nodes_of(slices[0])))
+    resplits = []
+    for x in walk_local(f.node):
+        if not (isinstance(x, ast.Assign) and norm(x.targets[0]) == var) or x is slices[0]:
+            continue
+        if not (set(g.nodes_of(x)) & after):
+            continue
+        if any(isinstance(c, ast.Call) and isinstance(c.func, ast.Attribute) and c.func.attr in ("split", "splitlines", "join") for c in ast.walk(x.value)):
+            resplits.append(x)
+        elif isinstance(x.value, ast.Subscript) or (isinstance(x.value, ast.Call) and call_name(x.value) in ("list", "tuple", "reversed", "sorted", "filter")):
+            raise AnalysisError(f"Syntax.__rich_console__: `{short(x)}` reshapes the selected lines in a way this rule does not read")
+    if not resplits:
+        ctx.ok(f.where, "the selected lines are not re-split before they are numbered", f.fq)
+        return
+    sd = _sdf(f.node)
+    parents = {}
+    for p_ in ast.walk(f.node):
+        for c_ in ast.iter_child_nodes(p_):
+            parents[id(c_)] = p_
+
+    def ops_of(node, depth=0):
+        """trailing-line operations of the expression, in execution order"""
+        if depth > 8:
+            raise AnalysisError("Syntax.__rich_console__: the indent-guide chain is too deep to read")
+        if isinstance(node, ast.Name):
+            if node.id == var:
+                raise AnalysisError("Syntax.__rich_console__: the selected lines are split as if they were a text")
+            d = sd.get(node.id)
+            if d is None:
+                raise AnalysisError(f"Syntax.__rich_console__: `{node.id}` in the indent-guide chain has no single definition")
+            extra = []
+            for c in walk_local(f.node):
+                if isinstance(c, ast.Expr) and isinstance(c.value, ast.Call) and isinstance(c.value.func, ast.Attribute) and norm(c.value.func.value) == node.id:
+                    meth = c.value.func.attr
+                    if meth == "append" and c.value.args and isinstance(c.value.args[0], ast.Constant) and c.value.args[0].value == "\n":
+                        extra.append(("add", c))
+                    elif meth in ("append", "append_text", "append_tokens", "remove_suffix", "rstrip", "right_crop", "truncate", "set_length", "pad", "pad_right"):
+                        raise AnalysisError(f"Syntax.__rich_console__: `{short(c)}` changes the end of the joined text in a way this rule does not count")
+            return ops_of(d, depth + 1) + extra
+        if isinstance(node, ast.BinOp) and isinstance(node.op, ast.Add):
+            r = node.right
+            if (isinstance(r, ast.Constant) and r.value == "\n") or (isinstance(r, ast.Call) and call_name(r) == "Text" and r.args and isinstance(r.args[0], ast.Constant) and r.args[0].value == "\n"):
+                return ops_of(node.left, depth + 1) + [("add", node)]
+            raise AnalysisError(f"Syntax.__rich_console__: `{short(node)}` in the indent-guide chain is not read")
+        if isinstance(node, ast.Call) and isinstance(node.func, ast.Attribute):
+            name = node.func.attr
+            if name == "join":
+                sepn = node.func.value
+                sep_ok = (isinstance(sepn, ast.Call) and call_name(sepn) == "Text" and sepn.args and isinstance(sepn.args[0], ast.Constant) and sepn.args[0].value == "\n") or (isinstance(sepn, ast.Name) and norm(sd.get(sepn.id) or sepn) in ("Text('\\n')",))
+                if not sep_ok or len(node.args) != 1:
+                    raise AnalysisError(f"Syntax.__rich_console__: `{short(node)}` does not join the lines with a new line")
+                a0 = node.args[0]
+                if isinstance(a0, ast.Name) and a0.id == var:
+                    return [("join", node)]
+                txt = norm(a0)
+                if txt in (f"{var} + [Text()]", f"{var} + [Text('')]", f"[*{var}, Text()]", f"[*{var}, Text('')]"):
+                    return [("join", node), ("add", node)]
+                raise AnalysisError(f"Syntax.__rich_console__: `{short(node)}` joins something other than the selected lines")
+            if name in ("copy",):
+                return ops_of(node.func.value, depth + 1)
+            eff, callee = _rebuild_effect(ctx, name)
+            if eff is None:
+                raise AnalysisError(f"Syntax.__rich_console__: cannot tell what Text.{name} does to a trailing blank line")
+            return ops_of(node.func.value, depth + 1) + [(eff, node, callee, name)]
+        raise AnalysisError(f"Syntax.__rich_console__: `{short(node)}` in the indent-guide chain is not read")
+
+    for x in resplits:
+        where = f"{m.relpath}:{x.lineno}"
+        v = x.value
+        if not (isinstance(v, ast.Call) and isinstance(v.func, ast.Attribute) and v.func.attr == "split"):
+            raise AnalysisError(f"Syntax.__rich_console__: `{short(x)}` rebuilds the selected lines in a shape this rule does not read")
+        sep = v.args[0] if v.args else kwarg(v, "separator")
+        if sep is not None and not (isinstance(sep, ast.Constant) and sep.value == "\n"):
+            raise AnalysisError(f"Syntax.__rich_console__: `{short(x)}` does not split on the new line")
+        ops = ops_of(v.func.value)
+        final = _blank_keeping(kwarg(v, "allow_blank") if len(v.args) < 3 else v.args[2], f.node)
+        abn = kwarg(v, "allow_blank")
+        conditional = final == "yes" and abn is not None and not (isinstance(abn, ast.Constant))
+        if final not in ("yes", "no"):
+            raise AnalysisError(f"Syntax.__rich_console__: allow_blank=`{final}` on the re-split - cannot tell whether it is on when a range is in force")
+        for scenario in ("range", "whole"):
+            k, lost, story = 0, False, []
+            for op in ops:
+                kind = op[0]
+                if kind == "join":
+                    story.append("join: n lines")
+                elif kind == "add":
+                    k += 1
+                    story.append("new line appended: +1 empty last line")
+                elif kind == "drop":
+                    story.append(f"Text.{op[3]} re-splits with Text.split's default: drops an empty last line")
+                    if k:
+                        k -= 1
+                    else:
+                        lost = True
+                elif kind == "keep":
+                    story.append(f"Text.{op[3]}: line for line" if len(op) > 3 else "kept")
+            keeps = final == "yes" and (scenario == "range" or not conditional)
+            if not keeps:
+                story.append("final split without allow_blank: drops an empty last line")
+                if k:
+                    k -= 1
+                else:
+                    lost = True
+            else:
+                story.append("final split keeps blank lines")
+            if k > 0:
+                ctx.violation(f.fq, short(x), where, f"the indent-guide pass returns more lines than it was given ({'; '.join(story)}): an extra numbered line appears after the selected ones")
+                break
+            if lost and scenario == "range":
+                ctx.violation(f.fq, short(x), where, f"the indent-guide pass can drop the last selected line when it is blank ({'; '.join(story)}): Syntax('a\\n\\nb\\n\\nc', 'python', line_numbers=True, line_range=(1, 4), indent_guides=True) shows lines 1-3")
+                break
+        else:
+            ctx.ok(where, "join / indent guides / split returns exactly the selected lines (" + "; ".join(story) + ")", f.fq)
+        # the empty selection: ''.split gives one line
+        guarded = False
+        p_ = parents.get(id(x))
+        node_ = x
+        while p_ is not None and p_ is not f.node:
+            if isinstance(p_, ast.If) and node_ in p_.body:
+                tests = p_.test.values if isinstance(p_.test, ast.BoolOp) and isinstance(p_.test.op, ast.And) else [p_.test]
+                if any(norm(t) in (var, f"len({var})", f"len({var}) > 0", f"{var} != []", f"bool({var})") for t in tests):
+                    guarded = True
+            node_, p_ = p_, parents.get(id(p_))
+        if not guarded:
+            # an earlier `if not lines: return`
+            for n in walk_local(f.node):
+                if isinstance(n, ast.If) and norm(n.test) in (f"not {var}", f"len({var}) == 0") and n.body and isinstance(n.body[-1], ast.Return) and set(g.nodes_of(n)) & after:
+                    guarded = True
+        if guarded:
+            ctx.ok(where, "an empty selection is not re-split", f.fq)
+        else:
+            ctx.violation(f.fq, short(x), where, "the re-split also runs when the range selects no line: joining nothing gives '' and ''.split gives one line, so a range beyond the end of the code shows one numbered blank line - Syntax('a\\n', 'python', line_numbers=True, line_range=(7, 9), indent_guides=True) prints line 7")
+
+
+RULES = [r17_1, r17_2, r17_3, r17_4, r17_5, r17_7, r17_8, r17_9, r17_10]
